@@ -28,7 +28,7 @@ def run(ctx):
                 "codec field boundary classes")
     ctx.assumptions = ["PBKDF2-HMAC-SHA256 and HMAC-SHA256 rows certified with hashlib; RS1024 detection of 2- and 3-word errors is sampled (5.8e12 patterns)"]
     if ctx.want("mc"):
-        r = ctx.mc_expect_ok("slip39/MC_Shamir.tla", "MC_Shamir.cfg", what="threshold scheme over GF(256)", env={"NMAX": 4 if q else 6}, timeout=3000)
+        r = ctx.mc_expect_ok("slip39/MC_Shamir.tla", "MC_Shamir.cfg", what="threshold scheme over GF(256)", env={"NMAX": 4 if q else 6}, timeout=7200)
         ctx.exhaustive.append("MC_Shamir: every (k, n) with n <= %d, 4 secrets x 2 digest bytes x 8 random assignments, every collection order (%d states)" % (4 if q else 6, r.distinct))
     if not ctx.want("cases"):
         return
@@ -197,7 +197,7 @@ def run(ctx):
             c2["sid"] = c2.pop("idv")
     byid = {c["id"]: c for c in cases}
     ctx.sample({k_: v for k_, v in send[2].items() if k_ in ("id", "kind", "x")})
-    bad = ctx.validate("slip39/C15Cases.tla", send, "C15Cases.cfg", timeout=3000, per_shard_min=10)
+    bad = ctx.validate("slip39/C15Cases.tla", send, "C15Cases.cfg", timeout=7200, per_shard_min=10)
     for cid, why in bad.items():
         c = byid[cid]
         ctx.violation("%s:%s:%s" % (c["kind"], why, c.get("cls", c.get("w", ""))), "%s case %s: %s" % (c["kind"], cid, why),
